@@ -148,6 +148,10 @@ int Cleaner::CleanDead(const BuildLog::Entries& entries) {
 }
 
 void Cleaner::DoCleanTarget(Node* target) {
+  // Mark this target as visited before walking its inputs: the graph has not
+  // been checked for dependency cycles at this point.
+  cleaned_.insert(target);
+
   if (Edge* e = target->in_edge()) {
     // Do not try to remove phony targets
     if (!e->is_phony()) {
@@ -168,9 +172,6 @@ void Cleaner::DoCleanTarget(Node* target) {
       }
     }
   }
-
-  // mark this target to be cleaned already
-  cleaned_.insert(target);
 }
 
 int Cleaner::CleanTarget(Node* target) {
